@@ -1114,6 +1114,16 @@ def gen_c10(tier, rng):
                 for cpu in (CPUS if (not quick or k % 3 == 0) else [CPUS[k % 3]]):
                     cpus = f" cpu={cpu}" if cpu else ""
                     cases.append(f"mm f=find cfg={cfg} rank={rk}{cpus} x={hexs(x)} h={hexs(h)} a={(k * 5) % 64}")
+    # the fallback prefilter is only built when the rarest byte's rank is at most MAX_FALLBACK_RANK (250): needles whose
+    # rarest byte has rank exactly 249 / 250 / 251 under the identity ranker and under constant tables, no SIMD
+    for r0 in (249, 250, 251, 255):
+        t = bytearray([r0] * 256)
+        for x in (bytes([r0, 255, r0, 254, 253] * 2), bytes([255, r0, 254] * 4 + [r0]), bytes([r0, r0 + 1 if r0 < 255 else 254] * 20)):
+            for h in (b"q" * 30 + x + b"q" * 9, bytes([r0]) * 3 + x[:-1] + b"q" + x, b"q" * 70):
+                for rk in ("id", "tbl:" + bytes(t).hex()):
+                    for cfg in ("auto", "none"):
+                        k += 1
+                        cases.append(f"mm f=find cfg={cfg} rank={rk} cpu=none x={hexs(x)} h={hexs(h)} a={(k * 5) % 64}")
     # stale Two-Way memory after a prefilter skip: depends on where the ranker puts the rare bytes
     for (x, h) in stale_memory_pairs(rng, quick):
         k += 1
